@@ -46,7 +46,7 @@ type SeqOpts struct {
 	CheckSubset bool // C02 invariant: every L1 entry is in L2 with the same value and flags
 	NoModel     bool
 	// ExtraCheck runs after every command with the world and model.
-	ExtraCheck func(w *World, m *refmodel.Model, opIdx int, op wire.Op) (clause, detail string)
+	ExtraCheck func(w *World, m *refmodel.Model, opIdx int, op wire.Op, hist []wire.Op) (clause, detail string)
 	// StateKey overrides the canonical state rendering.
 	StateKey func(w *World, m *refmodel.Model) string
 	// Setup is applied to the fresh world before the first command.
@@ -157,7 +157,7 @@ func RunSeq(sc SeqScenario, o SeqOpts) *SeqResult {
 			}
 		}
 		if o.ExtraCheck != nil {
-			if c, d := o.ExtraCheck(w, m, i, op); c != "" {
+			if c, d := o.ExtraCheck(w, m, i, op, sc.Ops[:i+1]); c != "" {
 				add(i, c, d, op, "-", "-")
 			}
 		}
